@@ -639,3 +639,12 @@ Proof.
     unfold in_scope in Hok. rewrite forallb_forall in *. intros p Hp.
     apply part_ok_nonempty_ifs; [discriminate|apply Hok; exact Hp].
 Qed.
+
+(* ---- one Config, many calls: no call depends on what an earlier one left in cfg.ifs ----------- *)
+Theorem fields_seq_independent : forall calls prev,
+  fields_seq prev calls = map (fun c => word_fields (fst c) (snd c)) calls.
+Proof.
+  induction calls as [|[oifs ps] calls IH]; intros prev; simpl.
+  - reflexivity.
+  - rewrite IH. reflexivity.
+Qed.
